@@ -51,7 +51,7 @@ var _ RawRegister32 = ParseTXTMLEJoin(0)
 // ReadTXTMLEJoin reads a TXTMLEJoin register from TXT config
 func ReadTXTMLEJoin(data TXTConfigSpace) (TXTMLEJoin, error) {
 	var u32 uint32
-	buf := bytes.NewReader(data[TXTMLEJoinRegisterOffset:])
+	buf := bytes.NewReader(data.from(TXTMLEJoinRegisterOffset))
 	err := binary.Read(buf, binary.LittleEndian, &u32)
 	if err != nil {
 		return 0, err
